@@ -110,8 +110,14 @@ pub fn build(src: &mut Src) -> Result<Option<Setup>, Failure> {
         prevouts.push(prev.output[vout].clone());
         prev_txs.push(prev);
     }
+    // nVersion 1 disables BIP68: no relative lock can be claimed there
+    let tx_version = match src.below(8) {
+        0 => 1,
+        1 => 3,
+        _ => 2,
+    };
     let tx = Transaction {
-        version: transaction::Version(2),
+        version: transaction::Version(tx_version),
         lock_time: absolute::LockTime::from_consensus(lock_time),
         input: inputs,
         output: vec![TxOut { value: Amount::from_sat(40_000), script_pubkey: ScriptBuf::from_bytes(crate::mdesc::p2wpkh_spk(&[0xaa; 20])) }],
@@ -130,7 +136,7 @@ pub fn build(src: &mut Src) -> Result<Option<Setup>, Failure> {
             psbt.inputs[i].non_witness_utxo = Some(prev_txs[i].clone());
         }
         // everything the signers could contribute
-        let mut w = World { keys: Default::default(), preimages: keys::u().preimages.iter().copied().collect(), lock_time, sequence: tx.input[i].sequence.0 };
+        let mut w = World { keys: Default::default(), preimages: keys::u().preimages.iter().copied().collect(), lock_time, sequence: tx.input[i].sequence.0, tx_version };
         for k in d.all_keys() {
             if let Ok(kb) = key_bytes(&k, d.ctx()) {
                 if let Some(x) = keys::xonly_of(&kb) {
